@@ -91,6 +91,10 @@ func (x *Exec) callFunc(st *State, site ssa.Instruction, fn *ssa.Function, args 
 	if isIntrinsic(fn) {
 		return x.intrinsic(st, site, fn, args)
 	}
+	if fn.String() == "(*"+modPath+".tableEngine).delay" {
+		return x.delayModel(st, site, args)
+	}
+	x.curBind = bind
 	if c := x.P.contracts[fn]; c != nil && !c.Inline && fn != x.fn {
 		return x.applyContract(st, site, fn, c, args)
 	}
@@ -159,7 +163,55 @@ func (x *Exec) contractEnv(st *State, fn *ssa.Function, args []Val, old *Heap, a
 			ce.vars[p.Name()] = args[i]
 		}
 	}
+	// closures: free variables are named in the contract like parameters (captured variables are
+	// cells, so *name reads the current value; for convenience a by-value binding is exposed as-is)
+	for i, fv := range fn.FreeVars {
+		if i < len(x.curBind) {
+			ce.vars[fv.Name()] = x.derefCell(st, x.curBind[i])
+		}
+	}
 	return ce
+}
+
+// derefCell: a captured variable is a pointer to a cell; contracts see the value stored in it.
+func (x *Exec) derefCell(st *State, v Val) Val {
+	if v.K == VPtr && strings.HasPrefix(v.Prefix, "cell.") {
+		pt := v.Typ.Underlying().(*types.Pointer)
+		return loadPlace(st.heap, ptrPlace(v), pt.Elem())
+	}
+	return v
+}
+
+// delayModel: (*tableEngine).delay(interval, fn) waits and then runs fn at most once before
+// returning (the time-bank task may be cancelled). WaitGroup and timer are not modelled.
+func (x *Exec) delayModel(st *State, site ssa.Instruction, args []Val) Val {
+	x.trust("(*tableEngine).delay runs its handler at most once, synchronously, before returning (WaitGroup + time bank are outside the subset)")
+	fnv := args[2]
+	errT := types.Universe.Lookup("error").Type()
+	var alts []FuncAlt
+	if fnv.K == VFunc && fnv.Fn != nil {
+		alts = []FuncAlt{{True(), fnv.Fn, fnv.Bind}}
+	} else if fnv.K == VFunc && len(fnv.Alts) > 0 {
+		alts = fnv.Alts
+	} else {
+		unsupported("delay with a handler that is not a known closure")
+	}
+	run := FreshVar("delay.runs", SBool)
+	res := scalarVal(IntLit(0), errT)
+	for _, alt := range alts {
+		s2 := st.clone()
+		s2.pc = And(st.pc, run, alt.Cond)
+		if s2.pc.IsFalse() {
+			continue
+		}
+		r := x.callFunc(s2, site, alt.Fn, nil, alt.Bind)
+		s2.pc = And(st.pc, run, alt.Cond)
+		m := mergeStates(s2.pc, s2, st)
+		m.pc = st.pc
+		st.heap, st.alloc = m.heap, m.alloc
+		res = valIte(And(run, alt.Cond), r, res)
+	}
+	return res
 }
 
 func (x *Exec) bindConfig(ce *CEnv, c *Contract) {
@@ -499,6 +551,20 @@ func (x *Exec) externalCall(st *State, name string, recv Val, args []Val, res *t
 				f := fmt.Sprintf("log#r%d", ri)
 				h.Set(f, h.Get(f, 1, SInt).Store([]*Term{n}, t))
 				ri++
+			}
+		}
+	}
+	// function-local assumptions about the results of this external call
+	if x.contract != nil {
+		for _, a := range x.contract.Assumes {
+			if strings.HasPrefix(a.Anchor, "call ") && strings.HasSuffix(name, strings.TrimSpace(strings.TrimPrefix(a.Anchor, "call "))) {
+				ce := x.newCEnv(st)
+				ce.old = x.oldHeap
+				for i, r := range results {
+					ce.vars[fmt.Sprintf("result%d", i)] = r
+				}
+				x.assume(st, x.evalClause(ce, a.Clause, name))
+				x.trust("assumed about " + name + " in " + x.funcDisplayName() + ": " + a.Clause.Text)
 			}
 		}
 	}
